@@ -260,8 +260,15 @@ func builtinIntrinsics() map[string]Intrinsic {
 		I[n] = nop
 	}
 	I["(*sync.Mutex).TryLock"] = func(m *Machine, fn *ssa.Function, a []Value) Value { return m.ctx.True }
+	// sync.Pool: LIFO store (maximal reuse: the case in which stale state of a recycled object matters)
 	I["(*sync.Pool).Get"] = func(m *Machine, fn *ssa.Function, a []Value) Value {
 		p := m.ptrOf(a[0])
+		key := fmt.Sprintf("pool%p", p)
+		if items, _ := m.locals[key].([]Value); len(items) > 0 {
+			v := items[len(items)-1]
+			m.locals[key] = items[:len(items)-1]
+			return v
+		}
 		st := (*p).(StructV)
 		// field "New" is the last field of sync.Pool
 		newFn := st[len(st)-1]
@@ -269,6 +276,71 @@ func builtinIntrinsics() map[string]Intrinsic {
 			return IfaceV{}
 		}
 		return m.callValue(newFn, nil, nil)
+	}
+	I["(*sync.Pool).Put"] = func(m *Machine, fn *ssa.Function, a []Value) Value {
+		p := m.ptrOf(a[0])
+		if iv, ok := a[1].(IfaceV); ok && iv.T == nil {
+			return nil
+		}
+		key := fmt.Sprintf("pool%p", p)
+		items, _ := m.locals[key].([]Value)
+		m.locals[key] = append(items, a[1])
+		return nil
+	}
+	// sync.Map as an association list
+	smap := func(m *Machine, recv Value) *MapV {
+		p := m.ptrOf(recv)
+		key := fmt.Sprintf("syncmap%p", p)
+		mp, _ := m.locals[key].(*MapV)
+		if mp == nil {
+			mp = &MapV{idx: map[string]int{}}
+			m.locals[key] = mp
+		}
+		return mp
+	}
+	I["(*sync.Map).Load"] = func(m *Machine, fn *ssa.Function, a []Value) Value {
+		mp := smap(m, a[0])
+		if i := m.mapFind(mp, a[1]); i >= 0 {
+			return TupleV{mp.Vals[i], m.ctx.True}
+		}
+		return TupleV{IfaceV{}, m.ctx.False}
+	}
+	I["(*sync.Map).Store"] = func(m *Machine, fn *ssa.Function, a []Value) Value {
+		m.mapSet(smap(m, a[0]), a[1], a[2])
+		return nil
+	}
+	I["(*sync.Map).LoadOrStore"] = func(m *Machine, fn *ssa.Function, a []Value) Value {
+		mp := smap(m, a[0])
+		if i := m.mapFind(mp, a[1]); i >= 0 {
+			return TupleV{mp.Vals[i], m.ctx.True}
+		}
+		m.mapSet(mp, a[1], a[2])
+		return TupleV{a[2], m.ctx.False}
+	}
+	I["(*sync.Map).LoadAndDelete"] = func(m *Machine, fn *ssa.Function, a []Value) Value {
+		mp := smap(m, a[0])
+		if i := m.mapFind(mp, a[1]); i >= 0 {
+			v := mp.Vals[i]
+			m.mapDelete(mp, a[1])
+			return TupleV{v, m.ctx.True}
+		}
+		return TupleV{IfaceV{}, m.ctx.False}
+	}
+	I["(*sync.Map).Delete"] = func(m *Machine, fn *ssa.Function, a []Value) Value {
+		m.mapDelete(smap(m, a[0]), a[1])
+		return nil
+	}
+	I["(*sync.Map).Range"] = func(m *Machine, fn *ssa.Function, a []Value) Value {
+		mp := smap(m, a[0])
+		keys := append([]Value{}, mp.Keys...)
+		vals := append([]Value{}, mp.Vals...)
+		for i := range keys {
+			r := m.callValue(a[1], []Value{keys[i], vals[i]}, nil)
+			if t, ok := r.(*smt.Term); ok && !m.branch(t) {
+				break
+			}
+		}
+		return nil
 	}
 	I["(*sync.Once).Do"] = func(m *Machine, fn *ssa.Function, a []Value) Value {
 		p := m.ptrOf(a[0])
@@ -536,6 +608,28 @@ func builtinIntrinsics() map[string]Intrinsic {
 			return first
 		}
 		return m.newError("multierr", first)
+	}
+	// ---- zstd: opaque. Decompress of untrusted bytes returns an arbitrary short result or an error;
+	// Compress is outside every harness bound (inputs < 128 bytes take the plain path).
+	const zs = "github.com/apache/skywalking-banyandb/pkg/compress/zstd."
+	I[zs+"Compress"] = func(m *Machine, fn *ssa.Function, a []Value) Value {
+		m.unsupported("zstd.Compress (inputs >= 128 bytes are outside the harness bounds)")
+		return nil
+	}
+	I[zs+"Decompress"] = func(m *Machine, fn *ssa.Function, a []Value) Value {
+		fail := m.nondet("aux:zstd_err", 1)
+		if m.branch(m.ctx.Eq(fail, m.ctx.BV(1, 1))) {
+			return TupleV{SliceV{Nil: true}, m.newError("zstd: invalid input", nil)}
+		}
+		n := m.nondet("aux:zstd_len", 8)
+		m.assume(m.ctx.Ule(n, m.ctx.BV(2, 8)))
+		k := int(m.concretize(n, 4, "zstd output length"))
+		dst := a[0].(SliceV)
+		out := append([]Value{}, dst.A...)
+		for i := 0; i < k; i++ {
+			out = append(out, m.nondet("aux:zstd_byte", 8))
+		}
+		return TupleV{SliceV{A: out}, IfaceV{}}
 	}
 	I["fmt.Sprintf"] = func(m *Machine, fn *ssa.Function, a []Value) Value { return m.sprintf(a[0], a[1]) }
 	I["fmt.Sprint"] = func(m *Machine, fn *ssa.Function, a []Value) Value { return m.sprintf("%v", a[0]) }
